@@ -29,6 +29,10 @@ def main():
     if "--seeds" in args:
         seeds = args[args.index("--seeds") + 1].split(",")
         del args[args.index("--seeds"): args.index("--seeds") + 2]
+    only = None
+    if "--checks" in args:
+        only = args[args.index("--checks") + 1].split(",")
+        del args[args.index("--checks"): args.index("--checks") + 2]
     args = [a for a in args if not a.startswith("--")]
     names = sorted(os.listdir(ROOT))
     if args:
@@ -53,11 +57,11 @@ def main():
             continue
         sh(["git", "apply", patch], "/repo")
         # one parallel build of every monitor from the patched tree (the per-check builds are then no-ops)
-        brc, bout = sh(["cargo", "build", "--release", "--offline", "--quiet", "--bins"], "/verif/harness")
+        brc, bout = (0, "") if only else sh(["cargo", "build", "--release", "--offline", "--quiet", "--bins"], "/verif/harness")
         results = {}
         alarms = []
         try:
-            ids = [meta.get("property", n[:3])] if own_only else IDS
+            ids = [meta.get("property", n[:3])] if own_only else (only or IDS)
             for pid in ids:
                 for seed in seeds:
                     rc, out = sh(["./check", pid, "--tier", "quick", "--seed", seed], "/verif")
@@ -67,7 +71,15 @@ def main():
                         alarms.append({"check": pid, "seed": seed, "exit": rc, "lines": lines})
         finally:
             sh(["git", "checkout", "--", "."], "/repo")
-        meta["silence_trial"] = {"checks_run": sorted(results), "monitors_build_against_the_change": brc == 0, "all_exit_0": not alarms, "alarms": alarms}
+        if only:
+            # partial re-run (after a monitor was extended): merge into the recorded trial
+            prev = meta.get("silence_trial", {})
+            meta["silence_trial"] = {"checks_run": sorted(set(prev.get("checks_run", [])) | set(results)),
+                                     "monitors_build_against_the_change": prev.get("monitors_build_against_the_change", True),
+                                     "all_exit_0": prev.get("all_exit_0", True) and not alarms, "alarms": prev.get("alarms", []) + alarms,
+                                     "rerun_after_monitor_extension": sorted(results)}
+        else:
+            meta["silence_trial"] = {"checks_run": sorted(results), "monitors_build_against_the_change": brc == 0, "all_exit_0": not alarms, "alarms": alarms}
         json.dump(meta, open(mp, "w"), indent=1)
         print(n, "SILENT" if not alarms else "ALARM " + json.dumps(alarms)[:600], flush=True)
     # rebuild everything from the clean tree and put the clean-tree evidence back
